@@ -149,12 +149,13 @@ Qed.
     [MOKw M SP IS]: the packed region [M] meets the region contract, its read items meet the
     item laws (C13/C14/C20: index denotes read, borrow, clone_onto, push_item = push) and, where the
     Rust type has an [Ord], comparing items is comparing the owned values under a total order (C15). *)
-From FC Require Import Region.ItemsOk Region.Compare Region.ItemsCodec.
+From FC Require Import Region.ItemsOk Region.Compare Region.ItemsCodec Resource.Res Resource.ResOk Resource.ResMono.
 
 Record MOKw (M : MRegion) (SP : RSpec (mr M)) (IS : ISpec (mi M)) : Prop := {
   mok_region : @RegionOK (mr M) SP;
   mok_items : @ItemsOK (mr M) SP (mi M) IS;
   mok_ord : forall C, m_ord M = Some C -> @ItemOrdOK (mr M) SP (mi M) IS C;
+  mok_res : @ResMono (mr M) SP (m_res M);   (* C18: the used bytes never decrease on push *)
 }.
 Definition MOK (M : MRegion) : Prop := exists SP IS, @MOKw M SP IS.
 Definition MDOK (M : MRegion) (PI : PairIdx (mr M)) : Prop :=
@@ -180,14 +181,16 @@ Proof.
   - apply owned_items_ok.
   - intros C HC. cbn [m_ord m_owned] in HC. apply option_map_some in HC. destruct HC as (c & Hc & ->).
     apply (@owned_ord_ok (e_ty E) c (HE c Hc)).
+  - apply (@resok_mono (owned (e_ty E)) _ (owned_ok (e_ty E)) _ (owned_res_ok (e_ty E) (e_sz E))).
 Qed.
 Lemma mdok_owned E : ecmp_ok E -> @MDOK (m_owned E) (owned_pair (e_ty E)).
 Proof.
   intros HE. destruct (mok_owned HE) as (SP & IS & H).
   exists (owned_spec (e_ty E)), (owned_ispec (e_ty E)). split; [|constructor; apply owned_dense].
-  constructor; [apply owned_ok|apply owned_items_ok|].
-  intros C HC. cbn [m_ord m_owned] in HC. apply option_map_some in HC. destruct HC as (c & Hc & ->).
-  apply (@owned_ord_ok (e_ty E) c (HE c Hc)).
+  constructor; [apply owned_ok|apply owned_items_ok| |].
+  - intros C HC. cbn [m_ord m_owned] in HC. apply option_map_some in HC. destruct HC as (c & Hc & ->).
+    apply (@owned_ord_ok (e_ty E) c (HE c Hc)).
+  - apply (@resok_mono (owned (e_ty E)) _ (owned_ok (e_ty E)) _ (owned_res_ok (e_ty E) (e_sz E))).
 Qed.
 Lemma mok_mirror E : ecmp_ok E -> MOK (m_mirror E).
 Proof.
@@ -196,6 +199,7 @@ Proof.
   - apply mirror_items_ok.
   - intros C HC. cbn [m_ord m_mirror] in HC. apply option_map_some in HC. destruct HC as (c & Hc & ->).
     apply (@mirror_ord_ok (e_ty E) c (HE c Hc)).
+  - apply mirror_res_mono.
 Qed.
 Lemma mok_vec E : ecmp_ok E -> MOK (m_vec E).
 Proof.
@@ -204,16 +208,18 @@ Proof.
   - apply vec_region_items_ok.
   - intros C HC. cbn [m_ord m_vec] in HC. apply option_map_some in HC. destruct HC as (c & Hc & ->).
     apply (@vec_region_ord_ok (e_ty E) c (HE c Hc)).
+  - apply (@resok_mono (vec_region (e_ty E)) _ (vec_region_ok (e_ty E)) _ (vec_region_res_ok (e_ty E) (e_sz E))).
 Qed.
 
 Lemma mokw_string wf M SP IS : @MOKw M SP IS ->
   @MOKw (m_string wf M) (@string_spec (mr M) (fun _ => True) SP) (@string_ispec (mr M) (mi M) IS).
 Proof.
-  intros [HR HI HO]. constructor.
+  intros [HR HI HO HV]. constructor.
   - apply string_ok. exact HR.
   - apply (@string_items_ok (mr M) (fun _ => True) SP (mi M) IS HI).
   - intros C HC. cbn [m_ord m_string] in HC. apply option_map_some in HC. destruct HC as (c & Hc & ->).
     apply (@string_ord_ok (mr M) (fun _ => True) SP (mi M) IS c (HO c Hc)).
+  - apply (@string_res_mono (mr M) (fun _ => True) SP (m_res M) HV).
 Qed.
 Lemma mok_string wf M : MOK M -> MOK (m_string wf M).
 Proof. intros (SP & IS & H). eexists _, _. apply mokw_string. exact H. Qed.
@@ -231,99 +237,116 @@ Qed.
 
 Lemma mok_option M : MOK M -> MOK (m_option M).
 Proof.
-  intros (SP & IS & [HR HI HO]). exists (@option_spec (mr M) SP), (@option_ispec (mr M) (mi M) IS). constructor.
+  intros (SP & IS & [HR HI HO HV]). exists (@option_spec (mr M) SP), (@option_ispec (mr M) (mi M) IS). constructor.
   - apply (@option_ok (mr M) SP HR).
   - apply (@option_items_ok (mr M) SP (mi M) IS HI).
   - intros C HC. cbn [m_ord m_option] in HC. apply option_map_some in HC. destruct HC as (c & Hc & ->).
     apply (@option_ord_ok (mr M) SP (mi M) IS c HI (HO c Hc)).
+  - apply (@option_res_mono (mr M) SP HR (m_res M) HV).
 Qed.
 Lemma mok_result A B : MOK A -> MOK B -> MOK (m_result A B).
 Proof.
-  intros (SA & IA & [HRA HIA HOA]) (SB & IB & [HRB HIB HOB]).
+  intros (SA & IA & [HRA HIA HOA HVA]) (SB & IB & [HRB HIB HOB HVB]).
   exists (@result_spec (mr A) (mr B) SA SB), (@result_ispec (mr A) (mr B) (mi A) (mi B) IA IB). constructor.
   - apply (@result_ok (mr A) (mr B) SA HRA SB HRB).
   - apply (@result_items_ok (mr A) (mr B) SA SB (mi A) (mi B) IA IB HIA HIB).
   - intros C HC. cbn [m_ord m_result] in HC.
     destruct (m_ord A) as [ca|]; [|discriminate]. destruct (m_ord B) as [cb|]; [|discriminate]. inversion HC; subst.
     apply (@result_ord_ok (mr A) (mr B) SA SB (mi A) (mi B) IA IB ca cb (HOA ca eq_refl) (HOB cb eq_refl)).
+  - apply (@result_res_mono (mr A) (mr B) SA HRA SB HRB (m_res A) (m_res B) HVA HVB).
 Qed.
 Lemma mok_tuple2 A B : MOK A -> MOK B -> MOK (m_tuple2 A B).
 Proof.
-  intros (SA & IA & [HRA HIA HOA]) (SB & IB & [HRB HIB HOB]).
+  intros (SA & IA & [HRA HIA HOA HVA]) (SB & IB & [HRB HIB HOB HVB]).
   exists (@tuple2_spec (mr A) (mr B) SA SB), (@tuple2_ispec (mr A) (mr B) (mi A) (mi B) IA IB). constructor.
   - apply (@tuple2_ok (mr A) (mr B) SA HRA SB HRB).
   - apply (@tuple2_items_ok (mr A) (mr B) SA SB (mi A) (mi B) IA IB HIA HIB).
   - intros C HC. cbn [m_ord m_tuple2] in HC.
     destruct (m_ord A) as [ca|]; [|discriminate]. destruct (m_ord B) as [cb|]; [|discriminate]. inversion HC; subst.
     apply (@tuple2_ord_ok (mr A) (mr B) SA SB (mi A) (mi B) IA IB ca cb (HOA ca eq_refl) (HOB cb eq_refl)).
+  - apply (@tuple2_res_mono (mr A) (mr B) SA HRA SB HRB (m_res A) (m_res B) HVA HVB).
 Qed.
 
-Lemma mokw_slice M (O : IC (idx (mr M))) {OS : ICSer O} SP IS (HO : ICOk O) : @MOKw M SP IS ->
+Lemma mokw_slice M (O : IC (idx (mr M))) {OS : ICSer O} SP IS (HO : ICOk O) (HU : ICUsedMono O) : @MOKw M SP IS ->
   @MOKw (m_slice M O) (@slice_spec (mr M) O SP HO) (@slice_ispec (mr M) SP O HO (mi M)).
 Proof.
-  intros [HR HI HOr]. constructor.
+  intros [HR HI HOr HV]. constructor.
   - apply (@slice_ok (mr M) O SP HR HO).
   - apply (@slice_items_ok (mr M) SP HR O HO (mi M) IS HI).
   - intros C HC. cbn [m_ord m_slice] in HC. apply option_map_some in HC. destruct HC as (c & Hc & ->).
     apply (@slice_ord_ok (mr M) SP HR O HO (mi M) IS HI c (HOr c Hc)).
+  - apply (@slice_res_mono (mr M) O SP HR HO HU 0%N (m_res M) HV).
 Qed.
-Lemma mok_slice M (O : IC (idx (mr M))) {OS : ICSer O} : MOK M -> ICOk O -> MOK (m_slice M O).
-Proof. intros (SP & IS & H) HO. eexists _, _. apply (@mokw_slice M O OS SP IS HO H). Qed.
+Lemma mok_slice M (O : IC (idx (mr M))) {OS : ICSer O} : MOK M -> ICOk O -> ICUsedMono O -> MOK (m_slice M O).
+Proof. intros (SP & IS & H) HO HU. eexists _, _. apply (@mokw_slice M O OS SP IS HO HU H). Qed.
+Lemma mokw_slice_vec M isz SP IS : @MOKw M SP IS ->
+  @MOKw (m_slice_vec M isz) (@slice_spec (mr M) (vec_ic (idx (mr M)) isz) SP (vec_ic_ok _ _))
+        (@slice_ispec (mr M) SP (vec_ic (idx (mr M)) isz) (vec_ic_ok _ _) (mi M)).
+Proof.
+  intros HM. pose proof HM as [HR0 _ _ HV0].
+  destruct (@mokw_slice M (vec_ic (idx (mr M)) isz) _ SP IS (vec_ic_ok _ _) (@vec_ic_used_mono _ _) HM) as [HR HI HO _].
+  constructor; [exact HR|exact HI|exact HO|].
+  apply (@slice_vec_res_mono (mr M) SP HR0 isz (m_res M) HV0).
+Qed.
 Lemma mok_slice_vec M isz : MOK M -> MOK (m_slice_vec M isz).
-Proof.
-  intros HM. destruct (@mok_slice M (vec_ic (idx (mr M)) isz) _ HM (vec_ic_ok _ _)) as (SP & IS & [HR HI HO]).
-  exists SP, IS. constructor; [exact HR|exact HI|exact HO].
-Qed.
+Proof. intros (SP & IS & H). eexists _, _. apply (@mokw_slice_vec M isz SP IS H). Qed.
 
-Lemma mdok_slice M (O : IC (idx (mr M))) {OS : ICSer O} : MOK M -> ICOk O -> @MDOK (m_slice M O) (slice_pair (mr M) O).
+Lemma slice_dense_inst (R : Region) (O : IC (idx R)) SP (HR : @RegionOK R SP) (HO : ICOk O) :
+  @Dense (slice R O) (@slice_spec R O SP HO) (slice_pair R O).
 Proof.
-  intros (SP & IS & H) HO. eexists _, _. split; [apply (@mokw_slice M O OS SP IS HO H)|]. constructor.
-  destruct H as [HR _ _].
-  refine (@Build_Dense (slice (mr M) O) (@slice_spec (mr M) O SP HO) (slice_pair (mr M) O)
-            (fun x : ic_st O * st (mr M) => length (ic_abs (fst x))) _ _ _ _ _ _).
+  refine (@Build_Dense (slice R O) (@slice_spec R O SP HO) (slice_pair R O)
+            (fun x : ic_st O * st R => length (ic_abs (fst x))) _ _ _ _ _ _).
   - intros [a b]. reflexivity.
   - cbn. now rewrite abs_default.
   - intros [so sr]. cbn. now rewrite abs_clear.
   - intros l. cbn. now rewrite abs_default.
   - intros [so sr] [to tr] [Habs _]. cbn in *. now rewrite Habs.
   - intros [so sr] v [so' sr'] i (Hio & Hi & _) Hp. cbn [push slice fst snd] in Hp.
-    destruct (push_all (mr M) sr v) as [[sr1 is]|]; cbn [bind] in Hp; [|discriminate]. inversion Hp; subst.
+    destruct (push_all R sr v) as [[sr1 is]|]; cbn [bind] in Hp; [|discriminate]. inversion Hp; subst.
     destruct (@push_all_ic _ O HO is so Hio) as [Hio' _].
     cbn [to_pair slice_pair fst snd]. now rewrite !abs_len by assumption.
 Qed.
+Lemma mdok_slice M (O : IC (idx (mr M))) {OS : ICSer O} : MOK M -> ICOk O -> ICUsedMono O -> @MDOK (m_slice M O) (slice_pair (mr M) O).
+Proof.
+  intros (SP & IS & H) HO HU. eexists _, _. split; [apply (@mokw_slice M O OS SP IS HO HU H)|]. constructor.
+  destruct H as [HR _ _ _]. apply (slice_dense_inst HR HO).
+Qed.
 Lemma mdok_slice_vec M isz : MOK M -> @MDOK (m_slice_vec M isz) (slice_pair (mr M) (vec_ic (idx (mr M)) isz)).
 Proof.
-  intros HM. destruct (@mdok_slice M (vec_ic (idx (mr M)) isz) _ HM (vec_ic_ok _ _)) as (SP & IS & [HR HI HO] & D).
-  exists SP, IS. split; [constructor; [exact HR|exact HI|exact HO]|exact D].
+  intros (SP & IS & H). eexists _, _. split; [apply (@mokw_slice_vec M isz SP IS H)|]. constructor.
+  destruct H as [HR _ _ _]. apply (slice_dense_inst HR (vec_ic_ok _ _)).
 Qed.
 
 Lemma mok_collapse M : MOK M -> (forall v w, m_veq M v w = true -> v = w) -> MOK (m_collapse M).
 Proof.
-  intros (SP & IS & [HR HI HO]) Hs.
+  intros (SP & IS & [HR HI HO HV]) Hs.
   exists (@collapse_spec (mr M) (m_veq M) SP), (@collapse_ispec (mr M) (m_veq M) (mi M) IS). constructor.
   - apply (@collapse_ok (mr M) (m_veq M) SP HR Hs).
   - apply (@collapse_items_ok (mr M) (m_veq M) SP (mi M) IS HI).
   - intros C HC. cbn [m_ord m_collapse] in HC. apply option_map_some in HC. destruct HC as (c & Hc & ->).
     apply (@collapse_ord_ok (mr M) (m_veq M) SP (mi M) IS c (HO c Hc)).
+  - apply (@collapse_res_mono (mr M) (m_veq M) SP HR (m_res M) HV).
 Qed.
 
-Lemma mok_consec M PI (O : IC nat) {OS : ICSer O} chk : @MDOK M PI -> ICOk O -> MOK (@m_consec M PI O OS chk).
+Lemma mok_consec M PI (O : IC nat) {OS : ICSer O} chk : @MDOK M PI -> ICOk O -> ICUsedMono O -> MOK (@m_consec M PI O OS chk).
 Proof.
-  intros (SP & IS & [HR HI HOr] & [D]) HO.
+  intros (SP & IS & [HR HI HOr HV] & [D]) HO HU.
   exists (@consec_spec (mr M) SP PI D O HO chk), (@consec_ispec (mr M) PI O chk (mi M) IS). constructor.
   - apply (@consec_ok (mr M) SP HR PI D O HO chk).
   - apply (@consec_items_ok (mr M) SP HR PI D O HO chk (mi M) IS HI).
   - intros C HC. cbn [m_ord m_consec] in HC. apply option_map_some in HC. destruct HC as (c & Hc & ->).
     apply (@consec_ord_ok (mr M) SP HR PI D O HO chk (mi M) IS c (HOr c Hc)).
+  - apply (@consec_res_mono (mr M) SP HR PI D O HO HU chk (m_res M) HV).
 Qed.
 
-Lemma mok_columns M (O : IC nat) {OS : ICSer O} chk csz isz : MOK M -> ICOk O -> MOK (m_columns M O chk csz isz).
+Lemma mok_columns M (O : IC nat) {OS : ICSer O} chk csz isz : MOK M -> ICOk O -> ICUsedMono O -> MOK (m_columns M O chk csz isz).
 Proof.
-  intros (SP & IS & [HR HI HOr]) HO.
+  intros (SP & IS & [HR HI HOr HV]) HO HU.
   exists (@columns_spec (mr M) SP O HO chk), (@columns_ispec (mr M) SP O chk (mi M)). constructor.
   - apply (@columns_ok (mr M) SP HR O HO chk).
   - apply (@columns_items_ok (mr M) SP HR O HO chk (mi M) IS HI).
   - intros C HC. discriminate HC.
+  - apply (@columns_res_mono (mr M) SP O HO HU chk (m_res M) HV csz isz).
 Qed.
 
 Lemma codec_E : forall x : list N, (fun v : list N => v) ((fun v : list N => v) x) = x.
@@ -339,6 +362,10 @@ Proof.
   - apply (@codec_items_ok (owned N) (owned_spec N) (owned_ok N) _ _ codec_E codec_T).
   - intros C HC. cbn [m_ord m_codec] in HC. inversion HC; subst.
     apply (@codec_ord_ok (owned N) (owned_spec N) (fun v : list N => v) (fun v : list N => v) N.compare N_cmp_total).
+  - (* the inner byte region only ever grows *)
+    intros [s c] v [s' c'] i _ Hp. cbn [mr m_codec m_res] in *. unfold codec_owned in Hp. cbn [push codec_region fst snd] in Hp.
+    destruct (stored_form c v) as [sf|]; cbn [bind] in Hp; [|discriminate]. cbn [push owned] in Hp. inversion Hp; subst.
+    cbn [r_used fst total fold_right]. rewrite app_length. lia.
 Qed.
 Lemma mok_codec : MOK m_codec.
 Proof. eexists _, _. exact mokw_codec. Qed.
@@ -361,6 +388,7 @@ Proof.
   - apply huffman_ok.
   - apply huffman_items_ok.
   - intros C HC. cbn [m_ord m_huffman] in HC. inversion HC; subst. apply (@huffman_ord_ok N.compare N_cmp_total).
+  - intros s v s' i _ _. cbn. lia.
 Qed.
 
 Lemma mdok_str_owned wf bits : @MDOK (m_string wf (m_owned (e_word bits))) (owned_pair N).
@@ -379,14 +407,16 @@ Ltac mok :=
     | apply mok_slice_vec | apply mdok_slice_vec | apply mok_slice | apply mdok_slice
     | apply mok_columns | apply mok_consec
     | (apply mok_collapse; [|solve [veq_sound]])
-    | apply vec_ic_ok | apply index_list_ok | apply index_optimized_ok | apply ic_nat_ok ].
+    | apply vec_ic_ok | apply index_list_ok | apply index_optimized_ok | apply ic_nat_ok
+    | apply vec_ic_used_mono | apply index_list_used_mono | apply index_optimized_used_mono | apply ic_nat_used_mono ].
 
 (** EVERY region of the catalogue (except the two stated exceptions): region contract, read-item
     laws and -- where the Rust type is ordered -- the ordering law. *)
 Theorem catalogue_full chk szs n e : entry chk szs n = Some e -> n <> 21%N -> n <> 29%N ->
   exists (SP : RSpec (mr e)) (IS : ISpec (mi e)),
     @RegionOK (mr e) SP /\ @ItemsOK (mr e) SP (mi e) IS /\
-    forall C, m_ord e = Some C -> @ItemOrdOK (mr e) SP (mi e) IS C.
+    (forall C, m_ord e = Some C -> @ItemOrdOK (mr e) SP (mi e) IS C) /\
+    @ResMono (mr e) SP (m_res e).
 Proof.
   intros He H21 H29.
   assert (HM : MOK e).
@@ -395,7 +425,7 @@ Proof.
     repeat (destruct p as [p|p|]; try discriminate He);
       try (exfalso; apply H21; reflexivity); try (exfalso; apply H29; reflexivity);
       inversion He; subst; clear He; mok. }
-  destruct HM as (SP & IS & [HR HI HO]). exists SP, IS. auto.
+  destruct HM as (SP & IS & [HR HI HO HV]). exists SP, IS. auto.
 Qed.
 
 (** * the serialised form (C16): for every catalogue entry whose Rust type derives Serialize, the
